@@ -88,4 +88,14 @@ CHECKS = {
         trusted_base=TB,
         assumptions=[],
     ),
+    "C13": dict(
+        packs=["c13"], level="other",
+        explanation="R13.1 channel wiring of every From conversion and with_rgb888 (channel k of the result = convert_channel::<SRC::MAX_k, DST::MAX_k>(src.k()), const generics compared with the impl tables' evaluated constants), R13.2 identity path of convert_channel for equal maxima and the round-half-up fixed-point form, "
+                    "R13.3 luma coefficients sum to the divisor with rounding constant div/2, R13.4 binary thresholds (rounded luma >= 128, GRAY_50 = (MAX+1)/2), map_color and bool tables, BLACK/WHITE constants.",
+        claim="Decides the wiring/maxima/threshold/table clauses for all ~180 conversion functions; nearest-value rounding and monotonicity of the fixed-point reciprocal over all value pairs are not decided.",
+        note="Necessary conditions; trusted: rustc's evaluation of const generics and associated consts.",
+        technique="origin-tree wiring comparison against compiler-evaluated constant tables + decision extraction",
+        trusted_base=TB,
+        assumptions=[],
+    ),
 }
